@@ -11,6 +11,10 @@
 (*   pass      external inputs bonded directly to external outputs next to  *)
 (*             a processor, with the port indexes and the declaration order *)
 (*             arranged in every way                                        *)
+(*   romscan   a program without immediates (its jumps are the widest        *)
+(*             instructions) scanning a ROM data section of nlines lines of  *)
+(*             wpl words each                                               *)
+(*   so        nproc processors each attached to the same nso shared queues *)
 (*   misfit    an operand that cannot fit (a literal wider than the         *)
 (*             register): the source must be rejected (mov-max is the       *)
 (*             control: the largest literal that fits)                      *)
@@ -26,13 +30,17 @@ Shapes ==
       s \in (SUBSET RamLines) \ {{}}} \cup
   {[kind |-> "pass", rsize |-> 8, ncode |-> 5, ndata |-> 0, ram |-> <<>>, npass |-> np, high |-> h, passfirst |-> pf, cpuin |-> ci, what |-> ""] :
       np \in 0 .. 2, h \in BOOLEAN, pf \in BOOLEAN, ci \in BOOLEAN} \cup
+  {[kind |-> "romscan", rsize |-> 8, ncode |-> 6, ndata |-> nl * wpl, ram |-> <<>>, npass |-> nl, high |-> FALSE, passfirst |-> FALSE, cpuin |-> FALSE, what |-> ToString(wpl)] :
+      nl \in 1 .. 4, wpl \in 1 .. 6} \cup
+  {[kind |-> "so", rsize |-> 8, ncode |-> 5, ndata |-> 0, ram |-> <<>>, npass |-> nso, high |-> FALSE, passfirst |-> FALSE, cpuin |-> FALSE, what |-> ToString(np)] :
+      np \in 1 .. 3, nso \in 1 .. 3} \cup
   {[kind |-> "misfit", rsize |-> rs, ncode |-> 5, ndata |-> 0, ram |-> <<>>, npass |-> 0, high |-> FALSE, passfirst |-> FALSE, cpuin |-> FALSE, what |-> w] :
       rs \in {8, 16}, w \in {"rset-wide", "mov-wide", "rset-wide-hex", "rset-wide-bin", "mov-max"}}
 
 \* what the source demands of the emitted machine
 MinRom(s) == s.ncode + s.ndata
-NIn(s)  == s.npass + (IF s.cpuin THEN 1 ELSE 0)
-NOut(s) == s.npass + 1
+NIn(s)  == IF s.kind = "pass" THEN s.npass + (IF s.cpuin THEN 1 ELSE 0) ELSE 0
+NOut(s) == IF s.kind = "pass" THEN s.npass + 1 ELSE 1
 
 VARIABLE s
 Init == s \in Shapes
